@@ -110,8 +110,10 @@ func c12One(c *Ctx, r *Rand, idx int) {
 		seenConn[req.ConnectionID()] = true
 		seenMu.Unlock()
 		if m, _ := req.GetSearchMessage(); m != nil && m.BaseDN == "park" {
-			parkedNow.Add(1)
+			n := parkedNow.Add(1)
 			<-release
+			// the parked handlers of one run finish one after the other, 15ms apart: Stop has to wait for the LAST one
+			time.Sleep(time.Duration(n-1) * 15 * time.Millisecond)
 			parkedNow.Add(-1)
 		}
 		w.Write(req.NewSearchDoneResponse(gldap.WithResponseCode(0)))
